@@ -6,6 +6,10 @@
 //!             1 every call on the SAME service value (`svc.ready().call()` loop)
 //!             2 every call on a clone of the value the previous call was made on (clone of clone of ...)
 //!             3 two handles (the value and one clone made up front) used alternately
+//!           bits 4.. = mask of callers whose inner call is BUDGET-HUNGRY (bit 4+j: caller j): until its scripted
+//!             completion every poll of that inner future uses up the whole tokio cooperative budget of the task that
+//!             polls it (a handler draining an always-ready channel) and returns Pending. The property and the model do
+//!             not distinguish such an inner call from an ordinary one.
 //!   dyn:    bit 0: 0 = timeout_duration(T), 1 = timeout_fn(i -> t_i); bit 1 = the time unit of the whole script
 //!           (timeouts, Advance amounts) is the microsecond instead of the millisecond
 //!   a timeout >= 10^15 units stands for Duration::MAX
@@ -21,6 +25,47 @@ use verif_harness::*;
 
 type Res = Result<i128, TimeLimiterError<i128>>;
 type Fut = Pin<Box<dyn Future<Output = Res>>>;
+
+/// An inner future that, until the wrapped (gated) future completes, burns the whole cooperative budget of the
+/// polling task on every poll: `loop { consume_budget().await }` guarded by the completion. The budget probe is
+/// polled with a no-op waker, so the only wake-ups are those of the gated future (its scripted completion).
+struct Hungry<F>(F);
+impl<F: Future + Unpin> Future for Hungry<F> {
+    type Output = F::Output;
+    fn poll(mut self: Pin<&mut Self>, cx: &mut std::task::Context<'_>) -> std::task::Poll<F::Output> {
+        if let std::task::Poll::Ready(v) = Pin::new(&mut self.0).poll(cx) {
+            return std::task::Poll::Ready(v);
+        }
+        let w = futures::task::noop_waker();
+        let mut ncx = std::task::Context::from_waker(&w);
+        for _ in 0..100_000 {
+            let mut probe = std::pin::pin!(tokio::task::consume_budget());
+            if probe.as_mut().poll(&mut ncx).is_pending() {
+                break; // budget exhausted
+            }
+        }
+        std::task::Poll::Pending
+    }
+}
+
+/// The gated inner service; calls of the callers in `mask` are budget-hungry.
+#[derive(Clone)]
+struct Inner {
+    g: GatedInner,
+    mask: i128,
+}
+impl Service<i128> for Inner {
+    type Response = i128;
+    type Error = i128;
+    type Future = Pin<Box<dyn Future<Output = Result<i128, i128>> + Send>>;
+    fn poll_ready(&mut self, cx: &mut std::task::Context<'_>) -> std::task::Poll<Result<(), i128>> {
+        self.g.poll_ready(cx)
+    }
+    fn call(&mut self, req: i128) -> Self::Future {
+        let f = self.g.call(req);
+        if req >= 0 && req < 100 && (self.mask >> req) & 1 != 0 { Box::pin(Hungry(f)) } else { f }
+    }
+}
 
 /// poll_ready (GatedInner is always ready) + call on one service value
 fn call_on<S>(c: &mut S, req: i128) -> Fut
@@ -82,6 +127,7 @@ fn run(s: &[i128]) -> Vec<i128> {
     let cancel = h0 % 2 != 0;
     let cancel_first = (h0 >> 1) & 1 != 0; // builder order: cancel_running_future before the timeout setter
     let handle_mode = (h0 >> 2) & 3;
+    let hungry_mask = h0 >> 4;
     let h1 = zn(s, 1).max(0);
     let dynamic = h1 % 2 != 0;
     let us = (h1 >> 1) & 1 != 0;
@@ -92,8 +138,9 @@ fn run(s: &[i128]) -> Vec<i128> {
     let per: Vec<u64> = (0..n).map(|i| zn(s, 4 + i).max(0) as u64).collect();
     let rt = paused_rt();
     rt.block_on(async move {
-        let inner = GatedInner::new();
-        let sh = inner.0.clone();
+        let gated = GatedInner::new();
+        let sh = gated.0.clone();
+        let inner = Inner { g: gated, mask: hungry_mask };
         let mut make: Box<dyn FnMut(i128) -> Fut> = if dynamic {
             let per = per.clone();
             let f = move |req: &i128| dur(per[*req as usize]);
